@@ -32,6 +32,7 @@ namespace sim { namespace aux {
 		void incoming_packet(packet p) override;
 		std::string label() const override;
 		void reset(sink* s = nullptr);
+		sink* destination() const { return m_dst; }
 
 	private:
 		sink* m_dst;
